@@ -95,11 +95,16 @@ func (r routecmd) build() []string {
 			if weight != "" {
 				cfg += " weight " + weight
 			}
+			// The route command parser reads the text between the quotes
+			// verbatim. Tags and options must therefore not be escaped: a
+			// backslash or a non-printable character would not be read back
+			// as registered. A value which cannot be written verbatim (it
+			// has a quote or a line break) is caught by checkRouteCmd.
 			if len(svctags) > 0 {
-				cfg += " tags " + strconv.Quote(strings.Join(svctags, ","))
+				cfg += " tags \"" + strings.Join(svctags, ",") + "\""
 			}
 			if len(ropts) > 0 {
-				cfg += " opts " + strconv.Quote(strings.Join(ropts, " "))
+				cfg += " opts \"" + strings.Join(ropts, " ") + "\""
 			}
 
 			// A registration which cannot be expressed as a route command
